@@ -2,6 +2,7 @@ SPECIFICATION Spec
 CONSTANTS
   MaxEntries = 6
   WireWeight = 8
+  WithAC = FALSE
   Randomised = TRUE
   Types = {"R", "G", "Z", "C", "L", "lamp", "lline", "V", "I", "ACV", "ACI", "CV", "CI"}
 INVARIANT Check
